@@ -318,7 +318,12 @@ func c05Case(r *Rng, max int, focus *genBlob) []genTx {
 	if maxBlob < 500 {
 		maxBlob = 500
 	}
-	txs := randTxList(r, r.Intn(4), r.Intn(5), maxBlob, false, nss)
+	nBlobTx := r.Intn(5)
+	if max >= 16 && r.Bool(50) {
+		// enough content for a 16x16 (or larger) square
+		nBlobTx = 6 + r.Intn(10)
+	}
+	txs := randTxList(r, r.Intn(4), nBlobTx, maxBlob, false, nss)
 	if focus != nil {
 		blobs := []genBlob{*focus}
 		for r.Bool(35) && len(blobs) < 3 {
@@ -362,7 +367,10 @@ func genC05(c *Ctx) {
 	r := c.rng
 	thresholds := []int{1, 2, 3, 5, 64}
 	// number of 542-byte leaves the model may hash in this run (about 13 ms each)
-	budget := 2000 * c.scale
+	budget := 2000
+	if c.tier == "thorough" {
+		budget = 8000
+	}
 	spent := 0
 
 	// self-test of the harness' RFC-6962 root on the reference vectors
@@ -395,11 +403,13 @@ func genC05(c *Ctx) {
 		}
 		n := len(shs)
 		args := []string{hx(g.ns), strconv.Itoa(int(g.ver)), showSigner(g.signer), hx(g.data), strconv.Itoa(thr)}
-		c.add("subtreeroots", args...)
-		spent += 2 * n
-		if both {
-			c.add("commitment", args...)
+		if spent+2*n < budget {
+			c.add("subtreeroots", args...)
 			spent += 2 * n
+			if both {
+				c.add("commitment", args...)
+				spent += 2 * n
+			}
 		}
 		w := inclusion.SubTreeWidth(n, thr)
 		sizes, _ := inclusion.MerkleMountainRangeSizes(uint64(n), uint64(w))
@@ -453,7 +463,7 @@ func genC05(c *Ctx) {
 	if c.tier == "thorough" {
 		maxes = append(maxes, 32, 64)
 	}
-	nSquares := 90 * c.scale
+	nSquares := 150 * c.scale
 	for i := 0; i < nSquares; i++ {
 		thr := pick(r, thresholds)
 		// the focus blob: hot or random length, placed in up to three different squares
